@@ -96,11 +96,8 @@ fn collect_constructor_names(file: &cst::File) -> HashSet<String> {
                     }
                 }
             }
-            cst::Item::Struct(struct_node) => {
-                if let Some(token) = struct_node.uident() {
-                    constructor_names.insert(token.to_string());
-                }
-            }
+            // a struct is built and matched with field syntax (`S { f: v }`): its bare name is no
+            // constructor, and a binder may be spelled like it
             _ => {}
         }
     }
